@@ -1,6 +1,7 @@
 import MxModel.Kernels.PathCodec
 import MxModel.Kernels.DocQuote
-/-! Line-protocol driver for the two C04 codecs (`mxdriver codec`).
+/-! Line-protocol driver for the two C04 codecs (`mxdriver codec`): ops `a2r r2a a2rt r2at` (relative
+addresses), `quote lex read doc sj` (documentation strings).
 
 Strings travel as decimal code points joined by `,` (`-` = empty string); tuple elements as
 `s:<string>` (a name) or `k:<string>` (an argument tuple, opaque), joined by `;` (`()` = empty
@@ -31,14 +32,6 @@ def encElem : Elem → String
 def encTuple (t : List Elem) : String :=
   if t.isEmpty then "()" else ";".intercalate (t.map encElem)
 
-def unCh : Ch → Char
-  | .q => '"' | .bs => '\\' | .nl => '\n' | .cr => '\r' | .en => 'n' | .plain c => c
-
-def decDoc (s : String) : Option (List Ch) :=
-  (decStr s).bind (fun cs => cs.mapM classify)
-
-def encDoc (d : List Ch) : String := encStr (d.map unCh)
-
 def step (line : String) : String :=
   match (line.splitOn " ").filter (· ≠ "") with
   | ["a2r", t, ns] =>
@@ -61,27 +54,44 @@ def step (line : String) : String :=
       | .error .index => "err Index"
       | .error .value => "err Value"
     | _, _ => "bad-op"
+  | ["quote", d] =>
+    -- quote_docstring(d)
+    match decStr d with
+    | none => "bad-op"
+    | some doc => "ok " ++ encStr (quoteDocstring doc)
   | ["lex", d] =>
+    -- the first token of the text as a triple-quoted literal: body between the quotes, rest
     match decStr d with
     | none => "bad-op"
-    | some cs =>
-      match cs.mapM classify with
-      | none => "unsupported"
-      | some text =>
-        match lexLit text with
-        | none => "unterminated"
-        | some (v, r) => "ok " ++ encDoc v ++ " " ++ encDoc r
+    | some text =>
+      match lexLit text with
+      | none => "unterminated"
+      | some (body, r) => "ok " ++ encStr body ++ " " ++ encStr r
+  | ["read", d] =>
+    -- the text as exactly one triple-quoted literal: its value
+    match decStr d with
+    | none => "bad-op"
+    | some text =>
+      match lexLit text with
+      | some (body, []) =>
+        if usesNamed body then "unsupported"
+        else match dec .text body with
+          | none => "unreadable"
+          | some v => "ok " ++ encStr v
+      | _ => "unreadable"
   | ["doc", d] =>
+    -- write, then read
     match decStr d with
     | none => "bad-op"
-    | some cs =>
-      match cs.mapM classify with
-      | none => "unsupported"
-      | some doc =>
-        let safe := if decide (SafeDoc doc) then "1" else "0"
-        match readLit (writeDoc doc) with
-        | none => "unreadable safe=" ++ safe
-        | some v => (if v = doc then "same" else "changed " ++ encDoc v) ++ " safe=" ++ safe
+    | some doc =>
+      match readLiteral (quoteDocstring doc) with
+      | none => "unreadable"
+      | some v => if v = doc then "same" else "changed " ++ encStr v
+  | ["sj", d] =>
+    -- "\n".join(text.splitlines())
+    match decStr d with
+    | none => "bad-op"
+    | some text => "ok " ++ encStr (splitJoin false text)
   | _ => "bad-op"
 
 partial def loop (h : IO.FS.Stream) (out : IO.FS.Stream) : IO Unit := do
